@@ -113,6 +113,8 @@ pub fn generate(
 
     // Forward declarations
     for decl in &file.declarations {
+        #[cfg(feature = "verif-sim")]
+        crate::verif_sim::yield_point("cxx:forward");
         if let Some(id) = decl.id() {
             if exclude_declarations.contains(&id.to_string()) {
                 continue;
